@@ -320,7 +320,7 @@ def replay(ctx, obj):
 
 
 CHECK = core.Check(
-    'C16', sc.CLUSTER, ['Props/C16.v', 'Props/C16E.v'], translate=sc.translate, correspond=correspond, oracle=oracle, replay=replay,
+    'C16', sc.CLUSTER, ['Props/C16.v', 'Props/C16E.v', 'Props/C16S.v'], translate=sc.translate, correspond=correspond, oracle=oracle, replay=replay,
     regressions=regressions, deps=('lib',),
     rule='every IkeSaController.dispatch_message call of simulator histories (scripted exchanges incl. retransmitted '
          'rekey/delete messages and simultaneous initiation, random walks with duplication/replay) is one case: table '
